@@ -147,9 +147,9 @@ func watched(run func(announce func(string)) *pbt.Result) *pbt.Result {
 			mu.Unlock()
 			if cur != last {
 				last, lastAt = cur, time.Now()
-			} else if time.Since(lastAt) > hangLimit() {
+			} else if limit := hangLimit(); time.Since(lastAt) > limit {
 				hangSeen.Store(true)
-				return pbt.Fail("%s: the call did not return within %v", w, hangLimit())
+				return pbt.Fail("%s: the call did not return within %v", w, limit)
 			}
 		}
 	}
